@@ -33,4 +33,18 @@ CHECKS["C03"] = dict(
     technique="Lean 4 theorem over a hand model + differential correspondence with Lean-evaluated spec",
 )
 
+CHECKS["C17"] = dict(
+    text=("Lean theorem UxVerif.C17.agg_face_eq: for EVERY reduction `red`, node data, face-node table and partition data "
+          "meeting PartsOK (faces grouped by size, every face in a slice) the scatter/gather loop of "
+          "_apply_node_to_face_aggregation_numpy equals, face by face, `red` over exactly that face's corner nodes; "
+          "agg_no_padding (the gathered indices are the real corners, never FILL, on any standard-form table), agg_edge_eq, "
+          "agg_leading (lifts to any rank), agg_rejects (dispatch decision table). PartsOK is evaluated BY LEAN on the "
+          "partitions the real get_face_node_partitions returns for every generated case (partsOf_ok for every argsort "
+          "tie-breaking is not yet proved: partial). The model loop is run by the driver with exact integer reductions and must "
+          "equal the implementation; all ten reductions are compared with NumPy's reduction over the element's own nodes."),
+    note=_TB + "Modelled, not verified: NumPy fancy indexing and the reductions themselves (parameters), np.argsort/np.unique/"
+         "np.cumsum inside get_face_node_partitions (validated per case by the Lean predicate PartsOK).",
+    technique="Lean 4 theorem (any reduction, any partition meeting a Lean-evaluated hypothesis) + differential correspondence",
+)
+
 NOT_APPLICABLE = {}
